@@ -2,6 +2,7 @@ import CE.Rules.Machine
 import CE.Rules.Table
 import CE.Rules.Measure
 import CE.Rules.Counters
+import CE.Rules.Limits
 /-
   C14 — configured resource limits are enforced exactly (validator part).
 
@@ -15,7 +16,10 @@ import CE.Rules.Counters
   `object_counter_is_the_structural_measure` - after EVERY accepted stream the validator's counter
   equals `Spec.measure evs`.objects (the independent structural measure the harness compares
   with) and is within the configured maximum (CE/Rules/Counters.lean: no statement of any rule
-  method touches the counter, NotifyNewObject adds one per object event).  For depth, array size,
+  method touches the counter, NotifyNewObject adds one per object event); and
+  `open_containers_and_markers_stay_within_their_limits` - in every state the validator reaches on
+  any stream the open-container count is within MaxContainerDepth, the registered markers are within
+  MaxLocalReferenceCount and the marker counter is their number.  For the equality of depth, array size,
   identifier length and marker count the lift (the counters equal the structural measures) is
   `…_partial`: exercised on every run at usage−1, usage and usage+1 of every limit of every
   generated document (bin/check C14).
@@ -122,5 +126,11 @@ theorem object_counter_is_the_structural_measure (env : Env) (evs : List Ev)
   rw [hm]
   simp only [RState.init, Nat.zero_add] at h1
   exact ⟨h1, by rw [← h1]; exact h2⟩
+
+/-- on any stream: open containers and registered markers never exceed their configured maxima -/
+theorem open_containers_and_markers_stay_within_their_limits (env : Env) (evs : List Ev) :
+    let s := (run env RState.init evs 0).2.2
+    s.depth ≤ env.cfg.maxContainerDepth ∧ s.refCount ≤ env.cfg.maxLocalRefCount ∧ s.refCount = s.marked.length :=
+  run_lim env evs RState.init 0 ⟨by simp [RState.init], by simp [RState.init], by simp [RState.init]⟩
 
 end CE.Props.C14
